@@ -49,7 +49,7 @@ StepOK(r, g0, g1) ==
                \* a single merge: the registrations of the plane that moved are what mergeQuads must produce
                \* (an insertion that merges counts twice: the loop of InsertQuad merges the plane once more with itself,
                \*  which moves nothing)
-               /\ (g1.merges = g0.merges + 2 /\ g1.count = g0.count) =>
+               /\ (g1.merges = g0.merges + 2 /\ g1.count = g0.count /\ g1.bounds[1] = g0.bounds[1] /\ g1.bounds[3] = g0.bounds[3]) =>
                      \A id \in Ids(g0) :
                         LET p0 == PlaneOf(g0, id)  p1 == PlaneOf(g1, id) IN
                         (p1[6] = p0[6] + 2) =>
@@ -59,7 +59,11 @@ StepOK(r, g0, g1) ==
                            ELSE want \subseteq PCells(p1) /\ PCells(p1) \subseteq (want \cup PCells(p0))
                \* planes that were not merged into keep their registrations
                /\ \A id \in Ids(g0) : PlaneOf(g1, id)[6] = PlaneOf(g0, id)[6] =>
-                     LET a == PlaneOf(g0, id)  b == PlaneOf(g1, id) IN a[2] = b[2] /\ a[3] = b[3] /\ a[7] = b[7]
+                     LET a == PlaneOf(g0, id)  b == PlaneOf(g1, id) IN
+                     /\ a[2] = b[2] /\ a[3] = b[3]
+                     \* (the closed cell range the code computes for a plane is a float32 subtraction of the grid origin: it
+                     \*  can move by one for an edge lying exactly on a cell border when the origin moves)
+                     /\ (g1.bounds[1] = g0.bounds[1] /\ g1.bounds[3] = g0.bounds[3] => a[7] = b[7])
           ELSE /\ g1.count = g0.count /\ g1.bounds = g0.bounds /\ Ids(g1) = Ids(g0)      \* joins, departures, refused samples change nothing
                /\ \A id \in Ids(g0) : LET a == PlaneOf(g0, id)  b == PlaneOf(g1, id) IN a[2] = b[2] /\ a[3] = b[3] /\ a[6] = b[6]
 
